@@ -1,15 +1,20 @@
 import Kaira.Verbs18
+import Kaira.Verbs16
 open Kaira
+
+def natVerb (verb : String) (args : List String) : Option String :=
+  match args.mapM String.toNat? with
+  | some ns => Verbs.c18 verb ns
+  | none => none
 
 def dispatch (line : String) : String :=
   match (line.trimAscii.toString.splitOn " ").filter (· ≠ "") with
   | [] => "bad-op"
   | verb :: args =>
-    match args.mapM String.toNat? with
-    | some ns =>
-      match Verbs.c18 verb ns with
-      | some out => out
-      | none => "bad-op"
+    let r := (natVerb verb args).orElse fun _ =>
+      (Verbs.c16 (verb :: args))
+    match r with
+    | some out => out
     | none => "bad-op"
 
 partial def loop (h : IO.FS.Stream) (out : IO.FS.Stream) : IO Unit := do
